@@ -1512,6 +1512,9 @@ func (c *Conn) waitResponse(d *connDeadline, id int32) (deadline time.Time, size
 		if verifOn {
 			verifEvent("C.Peek", c, id, rid, "yield")
 		}
+		// The deadline is attached again at the top of the loop; in between,
+		// the read lock and the socket's read deadline belong to someone else.
+		d.unsetConnReadDeadline()
 		c.rlock.Unlock()
 	}
 
@@ -1560,6 +1563,12 @@ func (c *Conn) ApiVersions() ([]ApiVersion, error) {
 		return nil, err
 	}
 	defer lock.Unlock()
+	// Detach the deadline object from the socket before the read lock is given
+	// back (deferred calls run in reverse order), like do and Batch.close:
+	// waitResponse attached it, and while it stays attached every later
+	// SetDeadline / SetWriteDeadline on the Conn rewrites the socket's read
+	// deadline, under the feet of whichever operation is reading by then.
+	defer deadline.unsetConnReadDeadline()
 	if verifOn {
 		defer func() { verifEvent("C.Body", c, id, verifMuxErr(err)) }()
 	}
